@@ -276,3 +276,19 @@ LEVEL_TEXT += _ADD11
 _ADD22 = ' Borrowed: R18.1 (no-copy shortcuts only where neither keys nor values need conversion).'
 EXPLANATION += _ADD22
 LEVEL_TEXT += _ADD22
+
+
+_run_before_r5 = run
+
+
+def run(repo, rep, tier):  # noqa: F811 -- round-5 shape rules appended to the rules above
+    _run_before_r5(repo, rep, tier)
+    if getattr(rep, "borrowed", False):
+        return
+    from ..core import round5 as _r5
+    _r5.union_guard_class(repo, rep, "R11.12")
+
+
+_ADDR5B = " Borrowed: R11.12: pack_union reduces every member type named in the `value.__class__ is/in (...)` guard to its runtime class with get_type_origin() first (no value's class is a generic alias, so a guard naming List[int] never matches)."
+EXPLANATION += _ADDR5B
+LEVEL_TEXT += _ADDR5B
